@@ -8,6 +8,7 @@ import (
 	"fmt"
 	"go/build/constraint"
 	"os"
+	"os/exec"
 	"path/filepath"
 	"sort"
 	"strings"
@@ -112,7 +113,52 @@ func userSets() [][]string {
 		}
 		res = append(res, s)
 	}
+	// always-on tags given again on the command line, duplicates: the result must not change
+	res = append(res, []string{"gopherjs"}, []string{"t1", "gopherjs"}, []string{"netgo", "t2"}, []string{"purego"}, []string{"math_big_pure_go", "t1"}, []string{"t1", "t1"}, []string{"gc"})
 	return res
+}
+
+// hostEnv is one setting of the host environment variables the build context may look at.
+type hostEnv struct {
+	name string
+	set  map[string]string // value "\x00" = unset
+}
+
+// hostEnvs: the variables are unset, set but empty (the go tool treats that as unset), or set to the defaults;
+// the host's cgo setting must never matter.
+var hostEnvs = []hostEnv{
+	{"default", map[string]string{"GOOS": "\x00", "GOARCH": "\x00", "CGO_ENABLED": "0"}},
+	{"cgo1", map[string]string{"GOOS": "\x00", "GOARCH": "\x00", "CGO_ENABLED": "1"}},
+	{"cgounset", map[string]string{"GOOS": "\x00", "GOARCH": "\x00", "CGO_ENABLED": "\x00"}},
+	{"emptyosarch", map[string]string{"GOOS": "", "GOARCH": "", "CGO_ENABLED": "0"}},
+	{"emptyarch", map[string]string{"GOOS": "\x00", "GOARCH": "", "CGO_ENABLED": "0"}},
+	{"explicit", map[string]string{"GOOS": "js", "GOARCH": "ecmascript", "CGO_ENABLED": "0"}},
+}
+
+func (h hostEnv) apply() (restore func()) {
+	old := map[string]*string{}
+	for k, v := range h.set {
+		if o, ok := os.LookupEnv(k); ok {
+			oo := o
+			old[k] = &oo
+		} else {
+			old[k] = nil
+		}
+		if v == "\x00" {
+			os.Unsetenv(k)
+		} else {
+			os.Setenv(k, v)
+		}
+	}
+	return func() {
+		for k, o := range old {
+			if o == nil {
+				os.Unsetenv(k)
+			} else {
+				os.Setenv(k, *o)
+			}
+		}
+	}
 }
 
 // Run materialises the files below dir and checks every (file, user tag set) decision.
@@ -165,6 +211,15 @@ func Run(work string, thorough bool) (Result, error) {
 			}
 		}
 	}
+	// every release tag, positive and negated (only go1.1 .. go1.<supported> are satisfied)
+	for rel := 1; rel <= 30; rel++ {
+		add("", fmt.Sprintf("go1.%d", rel), false, false)
+		add("", fmt.Sprintf("!go1.%d", rel), false, false)
+		add("", fmt.Sprintf("go1.%d && !go1.%d", rel, rel+1), false, false)
+	}
+	add("", "cgo", false, false)
+	add("", "!cgo", false, false)
+	add("_js", "!cgo", false, false)
 	add("", "", false, true)     // imports "C"
 	add("", "cgo", false, true)  // imports "C" and requires cgo
 	add("_js", "", false, true)  // imports "C"
@@ -202,17 +257,46 @@ func Run(work string, thorough bool) (Result, error) {
 	os.WriteFile(filepath.Join(dir, "a.inc.js"), []byte("/* a */\n"), 0o644)
 	os.WriteFile(filepath.Join(dir, "b_linux.inc.js"), []byte("/* b */\n"), 0o644)
 	os.WriteFile(filepath.Join(dir, "notinc.js"), []byte("/* c */\n"), 0o644)
+	for _, n := range []string{"jquery.min.inc.js", "shim.v1.2.inc.js", "helper_test.inc.js", "polyfill-es2015.inc.js", "c_wasm.inc.js", "UPPER.inc.js"} {
+		os.WriteFile(filepath.Join(dir, n), []byte("/* "+n+" */\n"), 0o644)
+	}
+	os.WriteFile(filepath.Join(dir, "_hidden.inc.js"), []byte("/* hidden */\n"), 0o644)
+	os.WriteFile(filepath.Join(dir, ".dotted.inc.js"), []byte("/* dotted */\n"), 0o644)
+	os.WriteFile(filepath.Join(dir, "x.inc.jsx"), []byte("/* not */\n"), 0o644)
+	os.WriteFile(filepath.Join(dir, "inc.js"), []byte("/* not */\n"), 0o644)
+	os.MkdirAll(filepath.Join(dir, "adir.inc.js"), 0o755)
+	// symbolic links to files outside the package directory count like the files they point to
+	os.MkdirAll(filepath.Join(work, "shared"), 0o755)
+	os.WriteFile(filepath.Join(work, "shared", "polyfill.js"), []byte("/* shared */\n"), 0o644)
+	os.WriteFile(filepath.Join(work, "shared", "linked.txt"), []byte("package c18pkg\n"), 0o644)
+	os.Symlink(filepath.Join(work, "shared", "polyfill.js"), filepath.Join(dir, "linked.inc.js"))
+	os.Symlink(filepath.Join(work, "shared", "linked.txt"), filepath.Join(dir, "linkedsrc.go"))
+	wantJS := "UPPER.inc.js,a.inc.js,b_linux.inc.js,c_wasm.inc.js,helper_test.inc.js,jquery.min.inc.js,linked.inc.js,polyfill-es2015.inc.js,shim.v1.2.inc.js"
 	r.Files = len(files) + 3
 	cwd, _ := os.Getwd()
 	os.Chdir(dir)
 	defer os.Chdir(cwd)
+	type config struct {
+		us  []string
+		env hostEnv
+	}
+	var configs []config
 	for _, us := range userSets() {
+		configs = append(configs, config{us, hostEnvs[0]})
+	}
+	for _, he := range hostEnvs[1:] {
+		configs = append(configs, config{nil, he}, config{[]string{"t1", "linux"}, he})
+	}
+	for _, cf := range configs {
+		us := cf.us
+		restore := cf.env.apply()
 		user := map[string]bool{}
 		for _, t := range us {
 			user[t] = true
 		}
 		xctx := gbuild.NewBuildContext("", us)
 		pkg, err := xctx.Import(".", dir, 0)
+		restore()
 		r.Imports++
 		if err != nil {
 			return r, fmt.Errorf("Import failed for tags %v: %w", us, err)
@@ -227,6 +311,9 @@ func Run(work string, thorough bool) (Result, error) {
 			testFiles[f] = true
 		}
 		tagset := strings.Join(us, ",")
+		if cf.env.name != "default" {
+			tagset += "/env=" + cf.env.name
+		}
 		for _, f := range files {
 			r.Decisions++
 			want := nameOK(f.name, "js", "ecmascript", user)
@@ -255,6 +342,9 @@ func Run(work string, thorough bool) (Result, error) {
 				r.Samples = append(r.Samples, fmt.Sprintf("%s [//go:build %s] tags={%s} -> selected=%v", f.name, f.expr, tagset, have))
 			}
 		}
+		if !got["linkedsrc.go"] {
+			r.Violations = append(r.Violations, "C18/symlink/tags="+tagset+" a source file that is a symbolic link must be selected like a regular file")
+		}
 		if got["_hidden.go"] || got[".dot.go"] || !got["always.go"] {
 			r.Violations = append(r.Violations, "C18/hidden/tags="+tagset+" files starting with _ or . must be ignored and plain files selected")
 		}
@@ -263,8 +353,8 @@ func Run(work string, thorough bool) (Result, error) {
 			js = append(js, filepath.Base(j.Path))
 		}
 		sort.Strings(js)
-		if strings.Join(js, ",") != "a.inc.js,b_linux.inc.js" {
-			r.Violations = append(r.Violations, "C18/incjs/tags="+tagset+" .inc.js files of the package directory must all be included, got "+strings.Join(js, ","))
+		if strings.Join(js, ",") != wantJS {
+			r.Violations = append(r.Violations, "C18/incjs/tags="+tagset+" .inc.js files of the package directory must all be included (and nothing else): got "+strings.Join(js, ",")+" want "+wantJS)
 		}
 	}
 	return r, nil
@@ -360,4 +450,161 @@ func findConstraint(src string) constraint.Expr {
 		}
 	}
 	return nil
+}
+
+// E2EResult holds the end-to-end clause: the real command-line tool builds a package whose files
+// register themselves at run time.
+type E2EResult struct {
+	Runs, Files, Decisions int
+	Violations             []string
+}
+
+// RunE2E builds the gopherjs command from repo, then for every (tag string, host environment) builds one
+// program with it and compares the files that registered themselves under Node with the documented rule.
+func RunE2E(work, repo string) (E2EResult, error) {
+	var r E2EResult
+	bin := filepath.Join(work, "gopherjs-cli")
+	cmd := exec.Command("go", "build", "-o", bin, ".")
+	cmd.Dir = repo
+	if out, err := cmd.CombinedOutput(); err != nil {
+		return r, fmt.Errorf("building the gopherjs command: %v\n%s", err, out)
+	}
+	dir := filepath.Join(work, "e2e")
+	os.MkdirAll(dir, 0o755)
+	os.WriteFile(filepath.Join(dir, "go.mod"), []byte("module c18e2e\n\ngo 1.20\n"), 0o644)
+	os.WriteFile(filepath.Join(dir, "main.go"), []byte(`package main
+
+var names []string
+
+func reg(s string) { names = append(names, s) }
+
+func main() {
+	for i := 1; i < len(names); i++ {
+		for j := i; j > 0 && names[j] < names[j-1]; j-- {
+			names[j], names[j-1] = names[j-1], names[j]
+		}
+	}
+	for _, n := range names {
+		println("file:" + n)
+	}
+}
+`), 0o644)
+	var files []fileCase
+	n := 0
+	add := func(suffix, expr string, cgo bool) {
+		n++
+		files = append(files, fileCase{name: fmt.Sprintf("e%04d%s.go", n, suffix), expr: expr, cgo: cgo})
+	}
+	for _, s := range suffixes {
+		add(s, "", false)
+	}
+	for _, v := range vocab {
+		add("", v, false)
+		add("", "!"+v, false)
+	}
+	for rel := 1; rel <= 30; rel++ {
+		add("", fmt.Sprintf("go1.%d", rel), false)
+		add("", fmt.Sprintf("!go1.%d", rel), false)
+	}
+	add("", "t1 && t2", false)
+	add("", "t1 || netgo", false)
+	add("_js", "!cgo && gopherjs", false)
+	add("", "", true)
+	add("_test", "", false)
+	for _, f := range files {
+		var b strings.Builder
+		if f.expr != "" {
+			b.WriteString("//go:build " + f.expr + "\n\n")
+		}
+		b.WriteString("package main\n")
+		if f.cgo {
+			b.WriteString("\nimport \"C\"\n")
+		}
+		b.WriteString("\nfunc init() { reg(\"" + f.name + "\") }\n")
+		os.WriteFile(filepath.Join(dir, f.name), []byte(b.String()), 0o644)
+	}
+	incs := []string{"a.inc.js", "b_linux.inc.js", "jquery.min.inc.js", "helper_test.inc.js"}
+	for _, n := range incs {
+		os.WriteFile(filepath.Join(dir, n), []byte("console.log(\"inc:"+n+"\");\n"), 0o644)
+	}
+	os.WriteFile(filepath.Join(dir, "_hidden.inc.js"), []byte("console.log(\"inc:_hidden.inc.js\");\n"), 0o644)
+	r.Files = len(files)
+	type run struct {
+		tags string
+		env  hostEnv
+	}
+	runs := []run{
+		{"", hostEnvs[0]}, {"t1", hostEnvs[0]}, {"t1 t2", hostEnvs[0]}, {"  t2   linux ", hostEnvs[0]}, {"gopherjs t1", hostEnvs[0]}, {"netgo", hostEnvs[0]},
+		{"t1", hostEnvs[1]}, {"", hostEnvs[3]}, {"t2", hostEnvs[4]}, {"", hostEnvs[5]},
+	}
+	for ri, rn := range runs {
+		r.Runs++
+		id := fmt.Sprintf("C18/e2e/tags=%s/env=%s", strings.Join(strings.Fields(rn.tags), ","), rn.env.name)
+		out := filepath.Join(work, fmt.Sprintf("e2e_out%d.js", ri))
+		args := []string{"build", "-o", out}
+		if rn.tags != "" {
+			args = append(args, "--tags", rn.tags)
+		}
+		args = append(args, ".")
+		c := exec.Command(bin, args...)
+		c.Dir = dir
+		env := []string{}
+		for _, kv := range os.Environ() {
+			k := kv[:strings.IndexByte(kv, '=')]
+			if _, managed := rn.env.set[k]; !managed {
+				env = append(env, kv)
+			}
+		}
+		for k, v := range rn.env.set {
+			if v != "\x00" {
+				env = append(env, k+"="+v)
+			}
+		}
+		c.Env = append(env, "GOPHERJS_SKIP_VERSION_CHECK=true")
+		if o, err := c.CombinedOutput(); err != nil {
+			r.Violations = append(r.Violations, id+"/build the command-line tool fails to build the package: "+strings.TrimSpace(string(o)))
+			continue
+		}
+		o, err := exec.Command("node", out).CombinedOutput()
+		if err != nil {
+			r.Violations = append(r.Violations, id+"/run the program fails under Node: "+strings.TrimSpace(string(o)))
+			continue
+		}
+		got := map[string]bool{}
+		for _, l := range strings.Split(string(o), "\n") {
+			if strings.HasPrefix(l, "file:") || strings.HasPrefix(l, "inc:") {
+				got[strings.TrimSpace(l)] = true
+			}
+		}
+		user := map[string]bool{}
+		for _, t := range strings.Fields(rn.tags) {
+			user[t] = true
+		}
+		for _, f := range files {
+			r.Decisions++
+			want := nameOK(f.name, "js", "ecmascript", user)
+			if want && f.expr != "" {
+				x, err := constraint.Parse("//go:build " + f.expr)
+				if err != nil {
+					return r, err
+				}
+				want = x.Eval(func(tag string) bool { return tagTrue(tag, "js", "ecmascript", user) })
+			}
+			if f.cgo || strings.HasSuffix(f.name, "_test.go") {
+				want = false
+			}
+			if got["file:"+f.name] != want {
+				r.Violations = append(r.Violations, fmt.Sprintf("%s/file=%s[%s] took part in the program: %v, documented rule says %v", id, f.name, strings.ReplaceAll(f.expr, " ", ""), got["file:"+f.name], want))
+			}
+		}
+		for _, n := range incs {
+			if !got["inc:"+n] {
+				r.Violations = append(r.Violations, id+"/inc="+n+" the .inc.js file of the package directory is not part of the program")
+			}
+		}
+		if got["inc:_hidden.inc.js"] {
+			r.Violations = append(r.Violations, id+"/inc=_hidden.inc.js a hidden .inc.js file is part of the program")
+		}
+	}
+	return r, nil
 }
